@@ -11,3 +11,4 @@ for d in seeded/*/; do
   echo "$id -> $line"
 done
 python3 harness/translate.py >/dev/null
+git checkout -q -- evidence 2>/dev/null   # evidence of runs against changed trees is not kept
